@@ -146,12 +146,12 @@ def stateful_eval(
     stateful_nodes: list[tuple[str, ast.Call]] = []
     for node in ast.walk(code):
         if _is_stateful_transform(node, env):
-            stateful_nodes.append(
-                (
-                    _restore_aliased_names(format_expr(node), aliases),
-                    cast(ast.Call, node),
-                )
-            )
+            legacy_name = format_expr(node)
+            name = _restore_aliased_names(legacy_name, aliases)
+            if name not in state and legacy_name in state:
+                # State recorded by earlier versions is keyed by sanitized names.
+                state[name] = state[legacy_name]
+            stateful_nodes.append((name, cast(ast.Call, node)))
 
     # Mutate stateful nodes to pass in state from a shared dictionary.
     for name, node in stateful_nodes:
